@@ -67,12 +67,15 @@ TABLE = {
     'C11': dict(level='other', bounded=[('c11_names.py', 'adversarial renaming to the converter vocabulary, differential run + new_symbol log'),
                                         ('rt_namer.py', 'run-time evaluation of the new_symbol contract')],
                 explanation='proved: Namer.new_symbol never returns a name of the namespace, a reserved name (QNs flattened) or an earlier '
-                            'generated name; assumed with a bounded stand-in: every call site reserves the names visible to the user code'),
+                            'generated name; Scope.referenced (what the converters pass as reserved names) contains every name read or bound in the scope '
+                            'or an ancestor; the per-function driver seeds the namer with the function\'s own namespace (event mode); assumed '
+                            'with a bounded stand-in: every call site passes the scope of the code it rewrites'),
     'C12': dict(level='other', bounded=[('c12_errors.py', 'one failing statement at any position/depth, callee chains <= 4, traceback and source-map oracle'),
                                         ('rt_errors.py', 'run-time evaluation of the create_exception decision table over an exception-class zoo')],
                 explanation='proved (event mode): ErrorMetadataBase.create_exception and api._ErrorMetadata.create_exception are trace-equivalent '
                             'to the decision table taken from the property (same type iff no initialiser of its own or listed; KeyError subclass; '
-                            'StagingError otherwise); assumed with a bounded stand-in: stack translation and the source map'),
+                            'StagingError otherwise); origin information is resolved on the freshly parsed tree before any rewriting (event mode, '
+                            'GenericTranspiler.transform_function); assumed with a bounded stand-in: stack translation and the source map'),
     'C13': dict(level='other', bounded=[('c13_zoo.py', 'callable zoo x argument shapes x options x injected pipeline failures'),
                                         ('rt_convcall.py', 'one concrete call per policy branch + disabled-then-enabled sequence (replay of the event contract)')],
                 explanation='proved (event mode, all callbacks, all argument shapes): converted_call is trace-equivalent to the documented policy '
